@@ -28,7 +28,7 @@ ASSUMPTIONS = [
 TRUSTED = ["correspondence harness harness/h_streams.c + tools/lib/vf.py (return value incl. exact errno, octets delivered to the caller / received by the sink; "
            "spec view: delivered = next N of the stream, sink content a prefix of the stream, auxiliary buffer untouched outside its region; "
            "octets taken from the source driver are compared with the model only)"]
-DESIGN_REF = "DESIGN.md section 8, C17"
+DESIGN_REF = "DESIGN.md section 0.2 (as built) and section 8, C17"
 TECHNIQUE = "Lean 4 proofs by induction over fuel/driver scripts on a scripted-driver model of the endpoint plumbing (exactness, prefix property, error pass-through, termination bound) + differential correspondence over all short scripts"
 LEVEL_TEXT = ("Machine-checked proof over the Lean model of endpoints/core.c: for every driver script, stream and count, a chunk read/write that succeeds has moved "
               "exactly the next N octets in order, a failing one returns the driver's error unchanged with a prefix moved, N = 0 and N > SSIZE_MAX are refused "
